@@ -198,6 +198,34 @@ func Modifiers() []J {
 	return out
 }
 
+// PreModifiers are the first modifiers of two-step chains (thorough tier): one or two per class.
+func PreModifiers() []J {
+	gA := J{"uuid": world.GroupA, "name": "Group A"}
+	gB := J{"uuid": world.GroupB, "name": "Group B"}
+	return []J{
+		{"type": "name", "name": "Bob"},
+		{"type": "name", "name": ""},
+		{"type": "language", "language": "fra"},
+		{"type": "status", "status": "blocked"},
+		{"type": "status", "status": "active"},
+		{"type": "timezone", "timezone": "Africa/Kigali"},
+		{"type": "field", "field": J{"key": "gender", "name": "gender"}, "value": ""},
+		{"type": "field", "field": J{"key": "gender", "name": "gender"}, "value": "M"},
+		{"type": "field", "field": J{"key": "age", "name": "age"}, "value": "17"},
+		{"type": "field", "field": J{"key": "joined", "name": "joined"}, "value": "2021-02-03T10:00:00Z"},
+		{"type": "field", "field": J{"key": "state", "name": "state"}, "value": "Kigali"},
+		{"type": "groups", "groups": []any{gA, gB}, "modification": "add"},
+		{"type": "groups", "groups": []any{gA}, "modification": "remove"},
+		{"type": "urns", "urns": []any{URNTel2}, "modification": "append"},
+		{"type": "urns", "urns": []any{URNTel}, "modification": "remove"},
+		{"type": "urns", "urns": []any{URNTel, URNTwitter2}, "modification": "set"},
+		{"type": "urns", "urns": []any{}, "modification": "set"},
+		{"type": "channel", "channel": J{"uuid": world.ChanTel, "name": "x"}},
+		{"type": "channel", "channel": nil},
+		{"type": "ticket", "topic": J{"uuid": world.TopicB, "name": "Support"}, "assignee": J{"email": "bob@nyaruka.com", "name": "Bob"}, "note": "n"},
+	}
+}
+
 // ---------------------------------------------------------------------------------------------
 // The reference model: a contact view and the event applier
 // ---------------------------------------------------------------------------------------------
